@@ -1,0 +1,8 @@
+//go:build verif
+
+package humanize
+
+// Contracts for govc. Comment-only file. Formatting helpers are read-only.
+//@ func ByteSize
+//@   pure
+//@   trusted
